@@ -67,6 +67,14 @@ def translate(ctx):
     ctx.c18_rows, ctx.c18_flags = rows, flags
     if changed:
         ctx.log("Gen/Ellipsoids.lean / GeoVariants.lean regenerated:", len(rows), "rows", flags)
+    # round 7: every member function of class Ellipsoid, statement by statement (Gen/EllipsoidExpr.lean)
+    from gen import c18_ellipsoid as ge
+    try:
+        members, ch = ge.run(ctx.repo, ctx.lean)
+    except ge.Unparsable as e:
+        raise TieBroken("c18_ellipsoid", str(e))
+    if ch:
+        ctx.log("Gen/EllipsoidExpr.lean regenerated:", len(members), "data members")
 
 
 # ------------------------------------------------------------------ generators
